@@ -691,37 +691,136 @@ Definition table : list review := [
   mk_review "h3-webtransport/src/server.rs" "Future for OpenUni::poll" K_unwrap 2 Guarded
     "Mutex::lock().unwrap() fails only if another holder panicked before (poisoning); p.stream.take().unwrap() is inside the `Some((stream, buf))` arm of the match on the same Option";
   mk_review "h3-webtransport/src/server.rs" "Future for AcceptUni::poll" K_unwrap 1 Guarded
-    "Mutex::lock().unwrap() fails only when the mutex is poisoned, i.e. after another h3 call already panicked while holding it; no peer input poisons it by itself"
+    "Mutex::lock().unwrap() fails only when the mutex is poisoned, i.e. after another h3 call already panicked while holding it; no peer input poisons it by itself";
+  mk_review "h3/src/proto/varint.rs" "VarInt::encode" K_buf_put 1 Guarded
+    "send path: put_uN into a BufMut; every caller writes into the 64-byte WriteBuf array sized StreamType::MAX_ENCODED_SIZE + Frame::MAX_ENCODED_SIZE (at most two varints + the header fields of one frame), or into a growable BytesMut; Model/WriteBuf.v / FrameEnc.v (C14) Panic sites for a full buffer are proved unreachable there";
+  mk_review "h3/src/proto/varint.rs" "VarInt::encode" K_buf_put 2 Guarded
+    "send path: put_uN into a BufMut; every caller writes into the 64-byte WriteBuf array sized StreamType::MAX_ENCODED_SIZE + Frame::MAX_ENCODED_SIZE (at most two varints + the header fields of one frame), or into a growable BytesMut; Model/WriteBuf.v / FrameEnc.v (C14) Panic sites for a full buffer are proved unreachable there";
+  mk_review "h3/src/proto/varint.rs" "VarInt::encode" K_buf_put 3 Guarded
+    "send path: put_uN into a BufMut; every caller writes into the 64-byte WriteBuf array sized StreamType::MAX_ENCODED_SIZE + Frame::MAX_ENCODED_SIZE (at most two varints + the header fields of one frame), or into a growable BytesMut; Model/WriteBuf.v / FrameEnc.v (C14) Panic sites for a full buffer are proved unreachable there";
+  mk_review "h3/src/proto/varint.rs" "VarInt::encode" K_buf_put 4 Guarded
+    "send path: put_uN into a BufMut; every caller writes into the 64-byte WriteBuf array sized StreamType::MAX_ENCODED_SIZE + Frame::MAX_ENCODED_SIZE (at most two varints + the header fields of one frame), or into a growable BytesMut; Model/WriteBuf.v / FrameEnc.v (C14) Panic sites for a full buffer are proved unreachable there";
+  mk_review "h3/src/proto/headers.rs" "Pseudo::request" K_from_static 1 NotPeerReachable
+    "PathAndQuery::from_static on the literal constants ""*"" / ""/"" when the LOCAL request has no path (client send path)";
+  mk_review "h3/src/proto/headers.rs" "Pseudo::request" K_from_static 2 NotPeerReachable
+    "PathAndQuery::from_static on the literal constants ""*"" / ""/"" when the LOCAL request has no path (client send path)";
+  mk_review "h3/src/proto/coding.rs" "Encode for u8::encode" K_buf_put 1 Guarded
+    "send path: put_uN into a BufMut; every caller writes into the 64-byte WriteBuf array sized StreamType::MAX_ENCODED_SIZE + Frame::MAX_ENCODED_SIZE (at most two varints + the header fields of one frame), or into a growable BytesMut; Model/WriteBuf.v / FrameEnc.v (C14) Panic sites for a full buffer are proved unreachable there"
 ].
 (* the fingerprint each owning function had when its rows were reviewed *)
 Definition print_table : list fn_print := [
+  mk_print "h3/src/frame.rs" "FrameStream::new" 1150901880139770955;
+  mk_print "h3/src/frame.rs" "FrameStream::into_inner" 75339226129746187;
+  mk_print "h3/src/frame.rs" "FrameStream::is_0rtt" 687683441163679685;
   mk_print "h3/src/frame.rs" "FrameStream::poll_next" 773942712910499929;
   mk_print "h3/src/frame.rs" "FrameStream::poll_data" 450068831201023236;
+  mk_print "h3/src/frame.rs" "FrameStream::stop_sending" 515168145231110709;
+  mk_print "h3/src/frame.rs" "FrameStream::has_data" 23785661533682465;
+  mk_print "h3/src/frame.rs" "FrameStream::is_eos" 449469273763870653;
+  mk_print "h3/src/frame.rs" "FrameStream::try_recv" 655771517669063906;
+  mk_print "h3/src/frame.rs" "FrameStream::id" 373181319204249204;
+  mk_print "h3/src/frame.rs" "SendStream for FrameStream::poll_ready" 751063019050899169;
+  mk_print "h3/src/frame.rs" "SendStream for FrameStream::send_data" 225970108178881924;
+  mk_print "h3/src/frame.rs" "SendStream for FrameStream::poll_finish" 241384935265644589;
+  mk_print "h3/src/frame.rs" "SendStream for FrameStream::reset" 440708354866032898;
+  mk_print "h3/src/frame.rs" "SendStream for FrameStream::send_id" 281643835556035049;
+  mk_print "h3/src/frame.rs" "FrameStream::split" 74253883829707234;
   mk_print "h3/src/frame.rs" "FrameDecoder::decode" 672027543324904117;
+  mk_print "h3/src/buf.rs" "BufList::new" 323915001134908668;
   mk_print "h3/src/buf.rs" "BufList::push" 242143266256771136;
+  mk_print "h3/src/buf.rs" "BufList::cursor" 1018298855632452476;
+  mk_print "h3/src/buf.rs" "BufList::take_first_chunk" 521276891594765790;
   mk_print "h3/src/buf.rs" "BufList::take_chunk" 934105119137658593;
   mk_print "h3/src/buf.rs" "BufList::push_bytes" 157875036097330398;
+  mk_print "h3/src/buf.rs" "Buf for BufList::remaining" 890326728092627307;
+  mk_print "h3/src/buf.rs" "Buf for BufList::chunk" 74786899522547833;
   mk_print "h3/src/buf.rs" "Buf for BufList::advance" 638458634516667010;
   mk_print "h3/src/buf.rs" "Buf for BufList::chunks_vectored" 848614575771136269;
+  mk_print "h3/src/buf.rs" "Cursor::position" 2295160209539953;
   mk_print "h3/src/buf.rs" "Buf for Cursor::remaining" 163695877692090574;
   mk_print "h3/src/buf.rs" "Buf for Cursor::chunk" 676316392519317006;
   mk_print "h3/src/buf.rs" "Buf for Cursor::advance" 479689138231383342;
+  mk_print "h3/src/buf.rs" "Buf for Cursor::chunks_vectored" 581076986526149465;
+  mk_print "h3/src/stream.rs" "write" 104127047487835431;
   mk_print "h3/src/stream.rs" "WriteBuf::encode_stream_type" 795521190218598940;
   mk_print "h3/src/stream.rs" "WriteBuf::encode_value" 356748551558653800;
   mk_print "h3/src/stream.rs" "WriteBuf::encode_frame_header" 929521502262075454;
+  mk_print "h3/src/stream.rs" "From for WriteBuf::from" 304241377855274727;
+  mk_print "h3/src/stream.rs" "From for WriteBuf::from#2" 155658664639276126;
+  mk_print "h3/src/stream.rs" "Encode for UniStreamHeader::encode" 506238950399438020;
+  mk_print "h3/src/stream.rs" "From for WriteBuf::from#3" 155658664639276126;
+  mk_print "h3/src/stream.rs" "Encode for BidiStreamHeader::encode" 182763832540207656;
+  mk_print "h3/src/stream.rs" "From for WriteBuf::from#4" 325175759058091692;
+  mk_print "h3/src/stream.rs" "From for WriteBuf::from#5" 1098983849328107738;
   mk_print "h3/src/stream.rs" "Buf for WriteBuf::remaining" 91094741877907860;
   mk_print "h3/src/stream.rs" "Buf for WriteBuf::chunk" 1125404724953153464;
   mk_print "h3/src/stream.rs" "Buf for WriteBuf::advance" 164696321208360097;
+  mk_print "h3/src/stream.rs" "AcceptRecvStream::new" 731296830901968248;
   mk_print "h3/src/stream.rs" "AcceptRecvStream::into_stream" 258665904043366105;
   mk_print "h3/src/stream.rs" "AcceptRecvStream::poll_next_varint" 1085122436385001287;
+  mk_print "h3/src/stream.rs" "AcceptRecvStream::poll_type" 810756824344597080;
+  mk_print "h3/src/stream.rs" "Debug for BufRecvStream::fmt" 880067781934221755;
+  mk_print "h3/src/stream.rs" "BufRecvStream::new" 457348805407091140;
+  mk_print "h3/src/stream.rs" "BufRecvStream::is_0rtt" 687683441163679685;
+  mk_print "h3/src/stream.rs" "BufRecvStream::poll_read" 597493425989976151;
+  mk_print "h3/src/stream.rs" "BufRecvStream::buf_mut" 452054018860441693;
+  mk_print "h3/src/stream.rs" "BufRecvStream::take_chunk" 841224925743073806;
+  mk_print "h3/src/stream.rs" "BufRecvStream::has_remaining" 150235610972315052;
+  mk_print "h3/src/stream.rs" "BufRecvStream::buf" 1012571732418707868;
+  mk_print "h3/src/stream.rs" "BufRecvStream::is_eos" 1057713165026686464;
   mk_print "h3/src/stream.rs" "RecvStream for BufRecvStream::poll_data" 854547133147545051;
+  mk_print "h3/src/stream.rs" "RecvStream for BufRecvStream::stop_sending" 144618481408127416;
+  mk_print "h3/src/stream.rs" "RecvStream for BufRecvStream::recv_id" 373181319204249204;
+  mk_print "h3/src/stream.rs" "SendStream for BufRecvStream::poll_finish" 241384935265644589;
+  mk_print "h3/src/stream.rs" "SendStream for BufRecvStream::reset" 440708354866032898;
+  mk_print "h3/src/stream.rs" "SendStream for BufRecvStream::send_id" 281643835556035049;
+  mk_print "h3/src/stream.rs" "SendStream for BufRecvStream::poll_ready" 751063019050899169;
+  mk_print "h3/src/stream.rs" "SendStream for BufRecvStream::send_data" 225970108178881924;
+  mk_print "h3/src/stream.rs" "SendStreamUnframed for BufRecvStream::poll_send" 1063289052162694200;
+  mk_print "h3/src/stream.rs" "BidiStream for BufRecvStream::split" 250673696551393865;
   mk_print "h3/src/stream.rs" "AsyncRead for BufRecvStream::poll_read" 101313352011356071;
   mk_print "h3/src/stream.rs" "AsyncRead for BufRecvStream::poll_read#2" 254956492202555858;
+  mk_print "h3/src/stream.rs" "AsyncWrite for BufRecvStream::poll_write" 675619127124637374;
+  mk_print "h3/src/stream.rs" "AsyncWrite for BufRecvStream::poll_flush" 1071399793047194370;
+  mk_print "h3/src/stream.rs" "AsyncWrite for BufRecvStream::poll_close" 59831834794144118;
+  mk_print "h3/src/stream.rs" "AsyncWrite for BufRecvStream::poll_write#2" 675619127124637374;
+  mk_print "h3/src/stream.rs" "AsyncWrite for BufRecvStream::poll_flush#2" 1071399793047194370;
+  mk_print "h3/src/stream.rs" "AsyncWrite for BufRecvStream::poll_shutdown" 59831834794144118;
+  mk_print "h3/src/stream.rs" "convert_to_std_io_error" 1090474924360026080;
+  mk_print "h3/src/connection.rs" "Default for AcceptedStreams::default" 265689869573206521;
+  mk_print "h3/src/connection.rs" "ConnectionState for ConnectionInner::shared_state" 988525740490372802;
+  mk_print "h3/src/connection.rs" "ConnectionInner::send_control_stream_headers" 438997759704275471;
   mk_print "h3/src/connection.rs" "ConnectionInner::new" 12721471135637780;
+  mk_print "h3/src/connection.rs" "ConnectionInner::shutdown" 590323239291305652;
+  mk_print "h3/src/connection.rs" "ConnectionInner::poll_accept_bi" 288926635190451279;
   mk_print "h3/src/connection.rs" "ConnectionInner::poll_accept_recv" 713826345832115115;
+  mk_print "h3/src/connection.rs" "ConnectionInner::poll_control" 372253367224771078;
+  mk_print "h3/src/connection.rs" "ConnectionInner::process_goaway" 16450791167015543;
+  mk_print "h3/src/connection.rs" "ConnectionInner::poll_grease_stream" 536023958500938307;
+  mk_print "h3/src/connection.rs" "ConnectionInner::accepted_streams_mut" 692572056007606968;
+  mk_print "h3/src/connection.rs" "RequestStream::new" 290613482124884746;
+  mk_print "h3/src/connection.rs" "ConnectionState for RequestStream::shared_state" 669279508457762153;
+  mk_print "h3/src/connection.rs" "RequestStream::poll_recv_data" 970168313992761998;
+  mk_print "h3/src/connection.rs" "RequestStream::poll_recv_trailers" 783970658009314464;
+  mk_print "h3/src/connection.rs" "RequestStream::stop_sending" 826605163225055398;
+  mk_print "h3/src/connection.rs" "RequestStream::send_data" 178447970480746150;
+  mk_print "h3/src/connection.rs" "RequestStream::send_trailers" 1119511140509002021;
+  mk_print "h3/src/connection.rs" "RequestStream::stop_stream" 689018384563544748;
+  mk_print "h3/src/connection.rs" "RequestStream::finish" 1073684320068889503;
+  mk_print "h3/src/connection.rs" "RequestStream::split" 198215049162407538;
+  mk_print "h3/src/proto/frame.rs" "Display for FrameError::fmt" 231235641259825048;
+  mk_print "h3/src/proto/frame.rs" "From for PayloadLen::from" 778859174687381923;
   mk_print "h3/src/proto/frame.rs" "Frame::decode" 367832883571405207;
   mk_print "h3/src/proto/frame.rs" "Encode for Frame::encode" 870179636553563531;
+  mk_print "h3/src/proto/frame.rs" "Frame::payload" 150408480469194593;
+  mk_print "h3/src/proto/frame.rs" "Frame::payload_mut" 743053807235616590;
+  mk_print "h3/src/proto/frame.rs" "Debug for Frame::fmt" 734860281300262914;
+  mk_print "h3/src/proto/frame.rs" "Debug for Frame::fmt#2" 874506343839384663;
+  mk_print "h3/src/proto/frame.rs" "eq" 453455347265122186;
+  mk_print "h3/src/proto/frame.rs" "macro_rules frame_types" 1130075942893512056;
   mk_print "h3/src/proto/frame.rs" "FrameType::grease" 301319997934305385;
+  mk_print "h3/src/proto/frame.rs" "FrameType::decode" 427833190679259277;
+  mk_print "h3/src/proto/frame.rs" "FrameType::encode" 957629261893156067;
   mk_print "h3/src/proto/frame.rs" "trait FrameHeader::encode_header" 618757857832004207;
   mk_print "h3/src/proto/frame.rs" "FrameHeader for PushPromise::encode_header" 635976018898191353;
   mk_print "h3/src/proto/frame.rs" "FrameHeader for PushPromise::len" 252993968248478575;
@@ -729,30 +828,83 @@ Definition print_table : list fn_print := [
   mk_print "h3/src/proto/frame.rs" "PushPromise::encode" 509208693144242715;
   mk_print "h3/src/proto/frame.rs" "simple_frame_encode" 631200995060528153;
   mk_print "h3/src/proto/frame.rs" "SettingId::grease" 836932576843504522;
+  mk_print "h3/src/proto/frame.rs" "SettingId::is_supported" 150585858852215086;
+  mk_print "h3/src/proto/frame.rs" "SettingId::is_forbidden" 118585086920348202;
+  mk_print "h3/src/proto/frame.rs" "SettingId::decode" 597874907889586901;
+  mk_print "h3/src/proto/frame.rs" "SettingId::encode" 957629261893156067;
+  mk_print "h3/src/proto/frame.rs" "macro_rules setting_identifiers" 1113279230688905600;
+  mk_print "h3/src/proto/frame.rs" "Default for Settings::default" 1149438223858233638;
   mk_print "h3/src/proto/frame.rs" "FrameHeader for Settings::len" 985087382786155330;
   mk_print "h3/src/proto/frame.rs" "Settings::insert" 528066828679289942;
+  mk_print "h3/src/proto/frame.rs" "Settings::get" 846786629019212139;
   mk_print "h3/src/proto/frame.rs" "Settings::encode" 1145645857995315072;
   mk_print "h3/src/proto/frame.rs" "Settings::decode" 384620666545267632;
+  mk_print "h3/src/proto/frame.rs" "Display for SettingsError::fmt" 1083212909226262852;
+  mk_print "h3/src/proto/frame.rs" "From for FrameError::from" 24064480287250714;
+  mk_print "h3/src/proto/frame.rs" "From for FrameError::from#2" 88351899131066002;
+  mk_print "h3/src/proto/frame.rs" "From for FrameError::from#3" 188246078995116683;
+  mk_print "h3/src/proto/frame.rs" "From for FrameError::from#4" 467349466775746879;
   mk_print "h3/src/proto/varint.rs" "Div for VarInt::div" 256651914913590250;
   mk_print "h3/src/proto/varint.rs" "VarInt::from_u32" 941072526534185645;
   mk_print "h3/src/proto/varint.rs" "VarInt::from_u64" 293689546447897185;
+  mk_print "h3/src/proto/varint.rs" "VarInt::from_u64_unchecked" 1133714290624990761;
+  mk_print "h3/src/proto/varint.rs" "VarInt::into_inner" 186033974944295544;
   mk_print "h3/src/proto/varint.rs" "VarInt::size" 312976612711140409;
   mk_print "h3/src/proto/varint.rs" "VarInt::encoded_size" 918329555572025248;
   mk_print "h3/src/proto/varint.rs" "VarInt::decode" 926658823126021335;
   mk_print "h3/src/proto/varint.rs" "VarInt::encode" 213449925008563489;
+  mk_print "h3/src/proto/varint.rs" "From for u64::from" 463161037390310092;
+  mk_print "h3/src/proto/varint.rs" "From for VarInt::from" 119111855962637982;
+  mk_print "h3/src/proto/varint.rs" "From for VarInt::from#2" 119111855962637982;
+  mk_print "h3/src/proto/varint.rs" "From for VarInt::from#3" 119111855962637982;
+  mk_print "h3/src/proto/varint.rs" "TryFrom for VarInt::try_from" 311284228123549591;
   mk_print "h3/src/proto/varint.rs" "TryFrom for VarInt::try_from#2" 229936924402357041;
+  mk_print "h3/src/proto/varint.rs" "Debug for VarInt::fmt" 913473294133391649;
+  mk_print "h3/src/proto/varint.rs" "Display for VarInt::fmt" 913473294133391649;
+  mk_print "h3/src/proto/varint.rs" "BufExt for T::get_var" 180655983632744962;
   mk_print "h3/src/proto/varint.rs" "BufMutExt for T::write_var" 912368294879219765;
+  mk_print "h3/src/proto/headers.rs" "Header::request" 876906254792748691;
+  mk_print "h3/src/proto/headers.rs" "Header::response" 50081628333327396;
+  mk_print "h3/src/proto/headers.rs" "Header::trailer" 786240646540176511;
+  mk_print "h3/src/proto/headers.rs" "Header::into_request_parts" 43341067799061091;
+  mk_print "h3/src/proto/headers.rs" "Header::into_response_parts" 637410448175893347;
+  mk_print "h3/src/proto/headers.rs" "Header::into_fields" 369460828559573185;
   mk_print "h3/src/proto/headers.rs" "Header::len" 897836074035909664;
   mk_print "h3/src/proto/headers.rs" "Header::size" 897836074035909664;
+  mk_print "h3/src/proto/headers.rs" "IntoIterator for Header::into_iter" 422437411753885578;
+  mk_print "h3/src/proto/headers.rs" "Iterator for HeaderIter::next" 1006601684875434884;
   mk_print "h3/src/proto/headers.rs" "TryFrom for Header::try_from" 457636697265220485;
+  mk_print "h3/src/proto/headers.rs" "is_token_char" 1025278694629586770;
   mk_print "h3/src/proto/headers.rs" "Field::parse" 320040293628555634;
+  mk_print "h3/src/proto/headers.rs" "try_value" 517717444729642612;
   mk_print "h3/src/proto/headers.rs" "Pseudo::request" 782785178403069000;
+  mk_print "h3/src/proto/headers.rs" "Pseudo::response" 1117265115631476960;
+  mk_print "h3/src/proto/headers.rs" "Pseudo::len" 217012103550056342;
+  mk_print "h3/src/proto/headers.rs" "HeaderError::invalid_name" 1023606039513307791;
+  mk_print "h3/src/proto/headers.rs" "HeaderError::invalid_value" 774315718048120871;
+  mk_print "h3/src/proto/headers.rs" "Display for HeaderError::fmt" 204268611786715543;
+  mk_print "h3/src/qpack/decoder.rs" "Display for DecoderError::fmt" 136351379797751149;
+  mk_print "h3/src/qpack/decoder.rs" "ack_header" 196926075402509835;
+  mk_print "h3/src/qpack/decoder.rs" "stream_canceled" 720124015255066983;
   mk_print "h3/src/qpack/decoder.rs" "Decoder::decode_header" 628830084392218672;
   mk_print "h3/src/qpack/decoder.rs" "Decoder::on_encoder_recv" 895248460119009793;
   mk_print "h3/src/qpack/decoder.rs" "Decoder::parse_instruction" 575943375186396049;
   mk_print "h3/src/qpack/decoder.rs" "Decoder::parse_header_field" 1011462602769334633;
   mk_print "h3/src/qpack/decoder.rs" "decode_stateless" 544680205903707186;
+  mk_print "h3/src/qpack/decoder.rs" "From for Decoder::from" 48294038740627220;
+  mk_print "h3/src/qpack/decoder.rs" "Decoder::verif_table" 587435188388214348;
+  mk_print "h3/src/qpack/decoder.rs" "Decoder::verif_table_mut" 1066992579071268495;
+  mk_print "h3/src/qpack/decoder.rs" "Debug for Instruction::fmt" 744119074046449991;
+  mk_print "h3/src/qpack/decoder.rs" "From for DecoderError::from" 13793782614479450;
+  mk_print "h3/src/qpack/decoder.rs" "From for DecoderError::from#2" 1005844251827382792;
+  mk_print "h3/src/qpack/decoder.rs" "From for DecoderError::from#3" 245547440328343687;
+  mk_print "h3/src/qpack/decoder.rs" "From for DecoderError::from#4" 933580629098464925;
+  mk_print "h3/src/qpack/decoder.rs" "From for DecoderError::from#5" 30087562348029800;
+  mk_print "h3/src/qpack/decoder.rs" "From for DecoderError::from#6" 852386627154144383;
+  mk_print "h3/src/qpack/decoder.rs" "From for DecoderError::from#7" 479441151736400510;
+  mk_print "h3/src/qpack/block.rs" "HeaderBlockField::decode" 154608561654849424;
   mk_print "h3/src/qpack/block.rs" "HeaderPrefix::new" 700412233743204094;
+  mk_print "h3/src/qpack/block.rs" "HeaderPrefix::encoded_insert_count" 1103371529571547847;
   mk_print "h3/src/qpack/block.rs" "HeaderPrefix::base_without_refs" 1068279302702602763;
   mk_print "h3/src/qpack/block.rs" "HeaderPrefix::get" 986661657310795746;
   mk_print "h3/src/qpack/block.rs" "HeaderPrefix::decode" 21144466040010937;
@@ -761,48 +913,247 @@ Definition print_table : list fn_print := [
   mk_print "h3/src/qpack/block.rs" "Indexed::encode" 371211073614992000;
   mk_print "h3/src/qpack/block.rs" "IndexedWithPostBase::decode" 958790998564218513;
   mk_print "h3/src/qpack/block.rs" "IndexedWithPostBase::encode" 792538056711760264;
+  mk_print "h3/src/qpack/block.rs" "LiteralWithNameRef::new_static" 836034503433932685;
+  mk_print "h3/src/qpack/block.rs" "LiteralWithNameRef::new_dynamic" 924276548312694520;
   mk_print "h3/src/qpack/block.rs" "LiteralWithNameRef::decode" 957988546141259113;
   mk_print "h3/src/qpack/block.rs" "LiteralWithNameRef::encode" 475812391532452569;
+  mk_print "h3/src/qpack/block.rs" "LiteralWithPostBaseNameRef::new" 743275551964812360;
   mk_print "h3/src/qpack/block.rs" "LiteralWithPostBaseNameRef::decode" 926428210056120332;
   mk_print "h3/src/qpack/block.rs" "LiteralWithPostBaseNameRef::encode" 703207341857269299;
+  mk_print "h3/src/qpack/block.rs" "Literal::new" 182534765126557071;
   mk_print "h3/src/qpack/block.rs" "Literal::decode" 1002216006489317059;
+  mk_print "h3/src/qpack/block.rs" "Literal::encode" 712524207025108;
+  mk_print "h3/src/qpack/prefix_string/mod.rs" "Display for Error::fmt" 1093547651769812913;
   mk_print "h3/src/qpack/prefix_string/mod.rs" "decode" 131588597399552501;
   mk_print "h3/src/qpack/prefix_string/mod.rs" "encode" 184149237997394068;
+  mk_print "h3/src/qpack/prefix_string/mod.rs" "From for Error::from" 804182361941677988;
+  mk_print "h3/src/qpack/prefix_string/mod.rs" "From for Error::from#2" 773535228159700340;
+  mk_print "h3/src/qpack/prefix_string/mod.rs" "From for Error::from#3" 466514578947605876;
+  mk_print "h3/src/qpack/prefix_string/mod.rs" "From for Error::from#4" 74990156042135621;
   mk_print "h3/src/qpack/prefix_string/decode.rs" "HuffmanDecoder::check_eof" 15064980860918784;
   mk_print "h3/src/qpack/prefix_string/decode.rs" "HuffmanDecoder::fetch_value" 281182403792575853;
   mk_print "h3/src/qpack/prefix_string/decode.rs" "HuffmanDecoder::decode_next" 735121105642080766;
   mk_print "h3/src/qpack/prefix_string/decode.rs" "read_bits" 876441152047018122;
+  mk_print "h3/src/qpack/prefix_string/decode.rs" "macro_rules bits_decode" 487685542333922048;
   mk_print "h3/src/qpack/prefix_string/decode.rs" "DecodeIter::check_padding" 176311161961407516;
   mk_print "h3/src/qpack/prefix_string/decode.rs" "Iterator for DecodeIter::next" 11204835972663812;
+  mk_print "h3/src/qpack/prefix_string/decode.rs" "HpackStringDecode for Vec::hpack_decode" 750183787018088679;
+  mk_print "h3/src/qpack/prefix_string/bitwin.rs" "BitWindow::new" 750442595876984215;
   mk_print "h3/src/qpack/prefix_string/bitwin.rs" "BitWindow::forwards" 432337054672047978;
   mk_print "h3/src/qpack/prefix_string/bitwin.rs" "BitWindow::opposite_bit_window" 560190362719643189;
+  mk_print "h3/src/qpack/prefix_int.rs" "Display for Error::fmt" 886737442545157843;
   mk_print "h3/src/qpack/prefix_int.rs" "decode" 659354619757671532;
   mk_print "h3/src/qpack/prefix_int.rs" "encode" 1082176733542918343;
+  mk_print "h3/src/qpack/prefix_int.rs" "From for Error::from" 11297621739770141;
+  mk_print "h3/src/qpack/static_.rs" "StaticTable::get" 790322360590095633;
   mk_print "h3/src/qpack/static_.rs" "StaticTable::find" 678541548410680664;
+  mk_print "h3/src/qpack/static_.rs" "StaticTable::find_name" 1008109048098316104;
+  mk_print "h3/src/qpack/static_.rs" "macro_rules decl_fields" 582673700530063555;
+  mk_print "h3/src/server/connection.rs" "ConnectionState for Connection::shared_state" 115241094138361009;
+  mk_print "h3/src/server/connection.rs" "Connection::new" 875909011944448346;
+  mk_print "h3/src/server/connection.rs" "Connection::create_resolver" 84767319278450923;
+  mk_print "h3/src/server/connection.rs" "Connection::poll_accept_request_stream" 451228401587259399;
+  mk_print "h3/src/server/connection.rs" "Connection::accept" 494132544792141940;
+  mk_print "h3/src/server/connection.rs" "Connection::create_resolver_internal" 1029834711944048236;
   mk_print "h3/src/server/connection.rs" "Connection::shutdown" 292969043711398150;
   mk_print "h3/src/server/connection.rs" "Connection::poll_accept_request_stream_internal" 610404150778549482;
+  mk_print "h3/src/server/connection.rs" "Connection::poll_control" 1068706351708663732;
+  mk_print "h3/src/server/connection.rs" "Connection::poll_next_control" 629287202045998089;
   mk_print "h3/src/server/connection.rs" "Connection::poll_requests_completion" 718867821029490266;
+  mk_print "h3/src/server/connection.rs" "Drop for Connection::drop" 723385846585367367;
+  mk_print "h3/src/server/request.rs" "ConnectionState for RequestResolver::shared_state" 988525740490372802;
+  mk_print "h3/src/server/request.rs" "RequestResolver::resolve_request" 646896110960086748;
+  mk_print "h3/src/server/request.rs" "RequestResolver::accept_with_frame" 112385665498014716;
+  mk_print "h3/src/server/request.rs" "ResolvedRequest::new" 765418095212068130;
   mk_print "h3/src/server/request.rs" "ResolvedRequest::resolve" 959414860809335716;
+  mk_print "h3/src/client/connection.rs" "ConnectionState for SendRequest::shared_state" 669279508457762153;
+  mk_print "h3/src/client/connection.rs" "SendRequest::send_request" 299258185385768941;
+  mk_print "h3/src/client/connection.rs" "Clone for SendRequest::clone" 356998976529543067;
+  mk_print "h3/src/client/connection.rs" "Drop for SendRequest::drop" 4328341965599469;
+  mk_print "h3/src/client/connection.rs" "ConnectionState for Connection::shared_state" 115241094138361009;
+  mk_print "h3/src/client/connection.rs" "Connection::shutdown" 1019340440540962911;
+  mk_print "h3/src/client/connection.rs" "Connection::wait_idle" 126981106181143991;
+  mk_print "h3/src/client/connection.rs" "Connection::poll_close" 241863320128509088;
+  mk_print "h3/src/client/stream.rs" "ConnectionState for RequestStream::shared_state" 628657718537498922;
+  mk_print "h3/src/client/stream.rs" "RequestStream::recv_response" 1017563162029815528;
+  mk_print "h3/src/client/stream.rs" "RequestStream::recv_data" 132857645111938254;
+  mk_print "h3/src/client/stream.rs" "RequestStream::poll_recv_data" 135933741021041766;
+  mk_print "h3/src/client/stream.rs" "RequestStream::recv_trailers" 131798178362501957;
+  mk_print "h3/src/client/stream.rs" "RequestStream::poll_recv_trailers" 607201014111785514;
+  mk_print "h3/src/client/stream.rs" "RequestStream::stop_sending" 447633155539875828;
+  mk_print "h3/src/client/stream.rs" "RequestStream::id" 883324117662024141;
+  mk_print "h3/src/client/stream.rs" "RequestStream::send_data" 30086979534131362;
+  mk_print "h3/src/client/stream.rs" "RequestStream::stop_stream" 698011714327780319;
+  mk_print "h3/src/client/stream.rs" "RequestStream::send_trailers" 636008869619886615;
+  mk_print "h3/src/client/stream.rs" "RequestStream::finish" 395227521642187249;
+  mk_print "h3/src/client/stream.rs" "RequestStream::split" 260242534548644335;
+  mk_print "h3/src/proto/stream.rs" "macro_rules stream_types" 1112834878143713745;
+  mk_print "h3/src/proto/stream.rs" "StreamType::value" 186033974944295544;
   mk_print "h3/src/proto/stream.rs" "StreamType::grease" 28828865531186429;
+  mk_print "h3/src/proto/stream.rs" "StreamType::from_value" 1104737714303282560;
+  mk_print "h3/src/proto/stream.rs" "Decode for StreamType::decode" 222986786266167297;
+  mk_print "h3/src/proto/stream.rs" "Encode for StreamType::encode" 957629261893156067;
+  mk_print "h3/src/proto/stream.rs" "Display for StreamType::fmt" 851424518906416301;
+  mk_print "h3/src/proto/stream.rs" "StreamId::is_request" 24984906777278163;
+  mk_print "h3/src/proto/stream.rs" "StreamId::is_push" 232827718273411537;
+  mk_print "h3/src/proto/stream.rs" "StreamId::initiator" 909302544069427353;
   mk_print "h3/src/proto/stream.rs" "StreamId::new" 590293261440644767;
   mk_print "h3/src/proto/stream.rs" "StreamId::index" 502293241333893232;
+  mk_print "h3/src/proto/stream.rs" "StreamId::dir" 1141534530075376810;
+  mk_print "h3/src/proto/stream.rs" "StreamId::into_inner" 186033974944295544;
+  mk_print "h3/src/proto/stream.rs" "TryFrom for StreamId::try_from" 1137275541621092069;
+  mk_print "h3/src/proto/stream.rs" "From for StreamId::from" 941213687626067710;
+  mk_print "h3/src/proto/stream.rs" "From for VarInt::from" 941213687626067710;
+  mk_print "h3/src/proto/stream.rs" "Display for InvalidStreamId::fmt" 80092286722799578;
   mk_print "h3/src/proto/stream.rs" "Encode for StreamId::encode" 873769224673166670;
   mk_print "h3/src/proto/stream.rs" "Add for StreamId::add" 345524331354929405;
+  mk_print "h3/src/proto/stream.rs" "From for StreamId::from#2" 136780320945009774;
+  mk_print "h3/src/proto/coding.rs" "Encode for u8::encode" 1051404087217834117;
   mk_print "h3/src/proto/coding.rs" "Decode for u8::decode" 626058792564135691;
+  mk_print "h3/src/proto/coding.rs" "BufExt for T::get" 936873173138485322;
+  mk_print "h3/src/proto/coding.rs" "BufExt for T::get_var" 180655983632744962;
+  mk_print "h3/src/proto/coding.rs" "BufMutExt for T::write" 1068690084111973526;
   mk_print "h3/src/proto/coding.rs" "BufMutExt for T::write_var" 912368294879219765;
+  mk_print "h3/src/proto/push.rs" "TryFrom for PushId::try_from" 880049427197323542;
+  mk_print "h3/src/proto/push.rs" "Display for InvalidPushId::fmt" 80092286722799578;
+  mk_print "h3/src/proto/push.rs" "From for PushId::from" 941213687626067710;
+  mk_print "h3/src/proto/push.rs" "From for VarInt::from" 941213687626067710;
+  mk_print "h3/src/proto/push.rs" "Display for PushId::fmt" 80092286722799578;
+  mk_print "h3/src/qpack/field.rs" "HeaderField::new" 238229759390868565;
   mk_print "h3/src/qpack/field.rs" "HeaderField::mem_size" 533776943161820621;
+  mk_print "h3/src/qpack/field.rs" "HeaderField::with_value" 1050513367764357923;
+  mk_print "h3/src/qpack/field.rs" "HeaderField::into_inner" 647487904641091179;
+  mk_print "h3/src/qpack/field.rs" "AsRef for HeaderField::as_ref" 64801214427571814;
+  mk_print "h3/src/qpack/field.rs" "Display for HeaderField::fmt" 1142003850185822208;
+  mk_print "h3/src/qpack/field.rs" "From for String::from" 1014901795606112923;
+  mk_print "h3/src/qpack/field.rs" "From for HeaderField::from" 747300534559506606;
+  mk_print "h3/src/server/stream.rs" "AsMut for RequestStream::as_mut" 1097277765907773111;
+  mk_print "h3/src/server/stream.rs" "ConnectionState for RequestStream::shared_state" 628657718537498922;
+  mk_print "h3/src/server/stream.rs" "RequestStream::recv_data" 132857645111938254;
+  mk_print "h3/src/server/stream.rs" "RequestStream::poll_recv_data" 135933741021041766;
+  mk_print "h3/src/server/stream.rs" "RequestStream::recv_trailers" 131798178362501957;
+  mk_print "h3/src/server/stream.rs" "RequestStream::poll_recv_trailers" 186738190319564245;
+  mk_print "h3/src/server/stream.rs" "RequestStream::stop_sending" 447633155539875828;
+  mk_print "h3/src/server/stream.rs" "RequestStream::id" 883324117662024141;
+  mk_print "h3/src/server/stream.rs" "RequestStream::is_0rtt" 117512947596845710;
+  mk_print "h3/src/server/stream.rs" "RequestStream::send_response" 200967366003937216;
+  mk_print "h3/src/server/stream.rs" "RequestStream::send_data" 30086979534131362;
+  mk_print "h3/src/server/stream.rs" "RequestStream::stop_stream" 698011714327780319;
+  mk_print "h3/src/server/stream.rs" "RequestStream::send_trailers" 636008869619886615;
+  mk_print "h3/src/server/stream.rs" "RequestStream::finish" 395227521642187249;
+  mk_print "h3/src/server/stream.rs" "RequestStream::send_id" 241710460276708836;
+  mk_print "h3/src/server/stream.rs" "RequestStream::split" 937504595848445003;
+  mk_print "h3/src/server/stream.rs" "Drop for RequestEnd::drop" 470077226762430633;
+  mk_print "h3/src/shared_state.rs" "Default for SharedState::default" 830466470461471464;
+  mk_print "h3/src/shared_state.rs" "ConnectionState for SharedState::shared_state" 64801214427571814;
+  mk_print "h3/src/shared_state.rs" "trait ConnectionState::get_conn_error" 490679660180387873;
+  mk_print "h3/src/shared_state.rs" "trait ConnectionState::set_conn_error" 944113606680628953;
+  mk_print "h3/src/shared_state.rs" "trait ConnectionState::set_conn_error_and_wake" 380362095685892710;
+  mk_print "h3/src/shared_state.rs" "trait ConnectionState::settings" 578374795263074436;
+  mk_print "h3/src/shared_state.rs" "trait ConnectionState::set_closing" 554722493731317424;
+  mk_print "h3/src/shared_state.rs" "trait ConnectionState::is_closing" 29945193071849995;
+  mk_print "h3/src/shared_state.rs" "trait ConnectionState::set_settings" 724673682462974400;
+  mk_print "h3/src/shared_state.rs" "trait ConnectionState::waker" 752531416241374420;
+  mk_print "h3/src/error/connection_error_creators.rs" "ConnectionInner::handle_connection_error" 507585249158738665;
+  mk_print "h3/src/error/connection_error_creators.rs" "ConnectionInner::close_if_needed" 172453552762155847;
+  mk_print "h3/src/error/connection_error_creators.rs" "ConnectionInner::convert_to_connection_error" 291992423941277856;
+  mk_print "h3/src/error/connection_error_creators.rs" "ConnectionInner::poll_connection_error" 735165039719507429;
+  mk_print "h3/src/error/connection_error_creators.rs" "ConnectionInner::close_connection" 397451251919500247;
+  mk_print "h3/src/error/connection_error_creators.rs" "convert_to_connection_error" 937839711145351;
+  mk_print "h3/src/error/connection_error_creators.rs" "trait CloseStream::handle_connection_error_on_stream" 421736021552367595;
+  mk_print "h3/src/error/connection_error_creators.rs" "trait CloseStream::handle_quic_stream_error" 397295199740343383;
+  mk_print "h3/src/error/connection_error_creators.rs" "trait CloseStream::check_peer_connection_closing" 696907572112218128;
+  mk_print "h3/src/error/connection_error_creators.rs" "trait CloseRawQuicConnection::handle_quic_error_raw" 465704157484677028;
+  mk_print "h3/src/error/connection_error_creators.rs" "trait CloseRawQuicConnection::close_raw_connection_with_h3_error" 338250730188755815;
+  mk_print "h3/src/error/connection_error_creators.rs" "HandleFrameStreamErrorOnRequestStream for T::handle_frame_stream_error_on_request_stream" 984994580629835145;
+  mk_print "h3/src/webtransport/session_id.rs" "SessionId::from_varint" 425008669550367919;
+  mk_print "h3/src/webtransport/session_id.rs" "SessionId::into_inner" 186033974944295544;
+  mk_print "h3/src/webtransport/session_id.rs" "TryFrom for SessionId::try_from" 1137275541621092069;
   mk_print "h3/src/webtransport/session_id.rs" "Encode for SessionId::encode" 873769224673166670;
+  mk_print "h3/src/webtransport/session_id.rs" "Decode for SessionId::decode" 180470267134472425;
+  mk_print "h3/src/webtransport/session_id.rs" "From for SessionId::from" 136780320945009774;
+  mk_print "h3/src/error/error.rs" "ConnectionError::is_h3_no_error" 1114112987535111330;
+  mk_print "h3/src/error/error.rs" "StreamError::is_h3_no_error" 872947035021433244;
+  mk_print "h3/src/error/error.rs" "From for LocalError::from" 151799043382945082;
+  mk_print "h3/src/error/error.rs" "Display for ConnectionError::fmt" 787001486823642864;
+  mk_print "h3/src/error/error.rs" "Display for StreamError::fmt" 1152729511464944781;
+  mk_print "h3/src/error/internal_error.rs" "InternalConnectionError::new" 660426139263041572;
+  mk_print "h3/src/error/internal_error.rs" "InternalConnectionError::got_frame_error" 114324563924769939;
+  mk_print "h3/src/error/internal_error.rs" "Display for ErrorOrigin::fmt" 940798751244262640;
+  mk_print "h3/src/error/internal_error.rs" "From for ErrorOrigin::from" 1151127656305036900;
+  mk_print "h3/src/error/internal_error.rs" "From for ErrorOrigin::from#2" 1062522947962224414;
+  mk_print "h3/src/error/codes.rs" "Code::value" 1035169536539291850;
+  mk_print "h3/src/error/codes.rs" "PartialEq for Code::eq" 551717075164050476;
   mk_print "h3/src/error/codes.rs" "macro_rules codes" 682329413848013144;
   mk_print "h3/src/error/codes.rs" "Debug for Code::fmt" 280962994888135949;
   mk_print "h3/src/error/codes.rs" "Display for Code::fmt" 280962994888135949;
+  mk_print "h3/src/error/codes.rs" "From for u64::from" 221183504120769323;
+  mk_print "h3/src/error/codes.rs" "From for Code::from" 271838727013841353;
+  mk_print "h3/src/quic.rs" "Debug for ConnectionErrorIncoming::fmt" 410520342046156955;
+  mk_print "h3/src/quic.rs" "Display for StreamErrorIncoming::fmt" 509587505176701422;
+  mk_print "h3/src/quic.rs" "Display for ConnectionErrorIncoming::fmt" 1070981354153206872;
+  mk_print "h3/src/config.rs" "From for Settings::from" 1031033288828927766;
   mk_print "h3/src/config.rs" "TryFrom for Settings::try_from" 1017941183739610855;
+  mk_print "h3/src/config.rs" "Default for Settings::default" 1008863168678033424;
+  mk_print "h3/src/config.rs" "Settings::enable_webtransport" 557221511118851777;
+  mk_print "h3/src/config.rs" "Settings::enable_datagram" 396744871177177842;
+  mk_print "h3/src/config.rs" "Settings::enable_extended_connect" 407068892347214733;
+  mk_print "h3/src/config.rs" "Default for Config::default" 880894152346469325;
+  mk_print "h3/src/ext.rs" "Protocol::as_str" 949034693737340333;
+  mk_print "h3/src/ext.rs" "FromStr for Protocol::from_str" 828038507356543955;
+  mk_print "h3-webtransport/src/server.rs" "ConnectionState for WebTransportSession::shared_state" 988525740490372802;
   mk_print "h3-webtransport/src/server.rs" "WebTransportSession::accept" 550420007095464154;
   mk_print "h3-webtransport/src/server.rs" "WebTransportSession::datagram_reader" 924007633160314050;
   mk_print "h3-webtransport/src/server.rs" "WebTransportSession::datagram_sender" 314400305298621567;
+  mk_print "h3-webtransport/src/server.rs" "WebTransportSession::accept_uni" 908850018544561474;
   mk_print "h3-webtransport/src/server.rs" "WebTransportSession::accept_bi" 740955396557562170;
+  mk_print "h3-webtransport/src/server.rs" "WebTransportSession::open_bi" 129801966886894143;
+  mk_print "h3-webtransport/src/server.rs" "WebTransportSession::open_uni" 103228944508605793;
+  mk_print "h3-webtransport/src/server.rs" "WebTransportSession::session_id" 941959950419786305;
+  mk_print "h3-webtransport/src/server.rs" "ConnectionState for WTransportStreamHandler::shared_state" 988525740490372802;
   mk_print "h3-webtransport/src/server.rs" "Future for OpenBi::poll" 144988328635635407;
   mk_print "h3-webtransport/src/server.rs" "Future for OpenUni::poll" 278308910431972849;
-  mk_print "h3-webtransport/src/server.rs" "Future for AcceptUni::poll" 342224305447064034
+  mk_print "h3-webtransport/src/server.rs" "Future for AcceptUni::poll" 342224305447064034;
+  mk_print "h3-webtransport/src/server.rs" "validate_wt_connect" 640162826739135106;
+  mk_print "h3-webtransport/src/stream.rs" "RecvStream::new" 389273341557209661;
+  mk_print "h3-webtransport/src/stream.rs" "RecvStream for RecvStream::poll_data" 198448159216045015;
+  mk_print "h3-webtransport/src/stream.rs" "RecvStream for RecvStream::stop_sending" 144618481408127416;
+  mk_print "h3-webtransport/src/stream.rs" "RecvStream for RecvStream::recv_id" 373181319204249204;
+  mk_print "h3-webtransport/src/stream.rs" "AsyncRead for RecvStream::poll_read" 26341239698541958;
+  mk_print "h3-webtransport/src/stream.rs" "AsyncRead for RecvStream::poll_read#2" 26341239698541958;
+  mk_print "h3-webtransport/src/stream.rs" "Debug for SendStream::fmt" 567576105067619824;
+  mk_print "h3-webtransport/src/stream.rs" "SendStream::new" 389273341557209661;
+  mk_print "h3-webtransport/src/stream.rs" "SendStreamUnframed for SendStream::poll_send" 1063289052162694200;
+  mk_print "h3-webtransport/src/stream.rs" "SendStream for SendStream::poll_finish" 241384935265644589;
+  mk_print "h3-webtransport/src/stream.rs" "SendStream for SendStream::reset" 440708354866032898;
+  mk_print "h3-webtransport/src/stream.rs" "SendStream for SendStream::send_id" 281643835556035049;
+  mk_print "h3-webtransport/src/stream.rs" "SendStream for SendStream::send_data" 225970108178881924;
+  mk_print "h3-webtransport/src/stream.rs" "SendStream for SendStream::poll_ready" 751063019050899169;
+  mk_print "h3-webtransport/src/stream.rs" "AsyncWrite for SendStream::poll_write" 191573624264431157;
+  mk_print "h3-webtransport/src/stream.rs" "AsyncWrite for SendStream::poll_flush" 606007506106403097;
+  mk_print "h3-webtransport/src/stream.rs" "AsyncWrite for SendStream::poll_close" 592090225721757179;
+  mk_print "h3-webtransport/src/stream.rs" "AsyncWrite for SendStream::poll_write#2" 191573624264431157;
+  mk_print "h3-webtransport/src/stream.rs" "AsyncWrite for SendStream::poll_flush#2" 606007506106403097;
+  mk_print "h3-webtransport/src/stream.rs" "AsyncWrite for SendStream::poll_shutdown" 191474529284485763;
+  mk_print "h3-webtransport/src/stream.rs" "BidiStream::new" 389273341557209661;
+  mk_print "h3-webtransport/src/stream.rs" "SendStream for BidiStream::poll_finish" 241384935265644589;
+  mk_print "h3-webtransport/src/stream.rs" "SendStream for BidiStream::reset" 440708354866032898;
+  mk_print "h3-webtransport/src/stream.rs" "SendStream for BidiStream::send_id" 281643835556035049;
+  mk_print "h3-webtransport/src/stream.rs" "SendStream for BidiStream::poll_ready" 751063019050899169;
+  mk_print "h3-webtransport/src/stream.rs" "SendStream for BidiStream::send_data" 225970108178881924;
+  mk_print "h3-webtransport/src/stream.rs" "SendStreamUnframed for BidiStream::poll_send" 1063289052162694200;
+  mk_print "h3-webtransport/src/stream.rs" "RecvStream for BidiStream::poll_data" 198448159216045015;
+  mk_print "h3-webtransport/src/stream.rs" "RecvStream for BidiStream::stop_sending" 144618481408127416;
+  mk_print "h3-webtransport/src/stream.rs" "RecvStream for BidiStream::recv_id" 373181319204249204;
+  mk_print "h3-webtransport/src/stream.rs" "BidiStream for BidiStream::split" 932989187935637473;
+  mk_print "h3-webtransport/src/stream.rs" "AsyncRead for BidiStream::poll_read" 26341239698541958;
+  mk_print "h3-webtransport/src/stream.rs" "AsyncWrite for BidiStream::poll_write" 191573624264431157;
+  mk_print "h3-webtransport/src/stream.rs" "AsyncWrite for BidiStream::poll_flush" 606007506106403097;
+  mk_print "h3-webtransport/src/stream.rs" "AsyncWrite for BidiStream::poll_close" 592090225721757179;
+  mk_print "h3-webtransport/src/stream.rs" "AsyncRead for BidiStream::poll_read#2" 26341239698541958;
+  mk_print "h3-webtransport/src/stream.rs" "AsyncWrite for BidiStream::poll_write#2" 191573624264431157;
+  mk_print "h3-webtransport/src/stream.rs" "AsyncWrite for BidiStream::poll_flush#2" 606007506106403097;
+  mk_print "h3-webtransport/src/stream.rs" "AsyncWrite for BidiStream::poll_shutdown" 191474529284485763
 ].
 
 Definition print_reviewed (q : fn_print) : bool :=
@@ -814,7 +1165,8 @@ Definition pkind_eqb (a b : pkind) : bool :=
   | K_assert, K_assert | K_debug_assert, K_debug_assert | K_todo, K_todo | K_index, K_index
   | K_index_const, K_index_const | K_buf_advance, K_buf_advance | K_buf_copy, K_buf_copy
   | K_buf_get, K_buf_get | K_split, K_split | K_arith, K_arith | K_shift, K_shift | K_cast, K_cast
-  | K_headermap, K_headermap | K_capacity, K_capacity => true
+  | K_headermap, K_headermap | K_capacity, K_capacity | K_buf_put, K_buf_put | K_ilog, K_ilog
+  | K_slice_move, K_slice_move | K_from_static, K_from_static => true
   | _, _ => false
   end.
 
